@@ -16,7 +16,7 @@ PROPERTY = "C16"
 LEVEL = "exploration"
 TECHNIQUE = "bounded-exhaustive enumeration (model class x shapes x R_x x catalogue) vs two independent oracles: certified quadrature of the object's own condition_on_x moments and NumPy closed forms (Gaussian-times-Gaussian integrals, per-unit 1-D link expectations)"
 RULE = (
-    "complete product: {RBF, squared-exponential feature models} x Dx in 1..3 x Dy in 1..2 x Dk in 1..3 and {exp, cosh-1, step, ReLU heteroscedastic} x (Dy,Da,Dk) in {(1,1,1),(2,2,1),(2,2,2),(1,2,1),(2,3,2)} x Dx in 1..3, "
+    "complete product: {RBF, squared-exponential feature models} x Dx in 1..3 x Dy in {1,2,4} x Dk in 1..3 and {exp, cosh-1, step, ReLU heteroscedastic} x (Dy,Da,Dk) in {(1,1,1),(2,2,1),(2,2,2),(1,2,1),(2,3,2),(4,4,2),(5,5,3)} x Dx in 1..3, "
     "x R_x in {1,2} x value index; per case: stated read-out of the conditional mean (unit-height bumps), marginal (mu,Sigma), joint (mu,Sigma incl. cross-covariance), conditional transformation (M,b,Sigma) "
     "against (A) quadrature of mu(x), Sigma(x) read black-box from condition_on_x(nodes) [Dx<=2; piecewise at kinks for Dx=1] and (B) closed forms [any Dx]. distinct = (shard, R_x, value index)"
 )
@@ -27,7 +27,7 @@ ASSUMPTIONS = [
 BOUNDS = {"quick": dict(Dx=[1, 2, 3]), "thorough": dict(Dx=[1, 2, 3, 4])}
 BUDGET = {"quick": 900, "thorough": 3600}
 
-HSHAPES = [(1, 1, 1), (2, 2, 1), (2, 2, 2), (1, 2, 1), (2, 3, 2)]
+HSHAPES = [(1, 1, 1), (2, 2, 1), (2, 2, 2), (1, 2, 1), (2, 3, 2), (4, 4, 2), (5, 5, 3)]
 LINKS = {"Exp": ac.HeteroscedasticExpConditional, "CoshM1": ac.HeteroscedasticCoshM1Conditional, "Heaviside": ac.HeteroscedasticHeavisideConditional, "ReLU": ac.HeteroscedasticReLUConditional}
 
 
@@ -35,8 +35,8 @@ def shards(tier, seed):
     out = []
     for kind in ("LRBF", "LSEM"):
         for Dx in BOUNDS[tier]["Dx"]:
-            for Dy in (1, 2):
-                for Dk in (1, 2, 3):
+            for Dy in (1, 2, 4):
+                for Dk in ((1, 2, 3) if Dy < 4 else (2,)):
                     out.append(dict(id="C16/%s/Dx%d.Dy%d.Dk%d" % (kind, Dx, Dy, Dk), kind=kind, Dx=Dx, Dy=Dy, Dk=Dk, cost=Dx * 3, facts=dict(kind=kind, Dx=Dx, Dy=Dy, Dk=Dk)))
     for link in LINKS:
         for Dx in BOUNDS[tier]["Dx"]:
